@@ -76,7 +76,7 @@ def new_record(rng, recs, d):
 
 def probe_strings(recs, d, rng):
     qs = []
-    for r in recs:
+    for r in (recs if len(recs) <= 12 else rng.sample(list(recs), k=12)):  # (at scale: a sample of the records)
         for p in spec.all_p(r):
             qs.append(("c", p + d + "1"))
             qs.append(("p", p))
@@ -163,7 +163,10 @@ def run_case(ctx, g, rng):
         # the same histories on a converter far above any plausible fast-path threshold
         start = gen.large_records(rng, rng.choice([150, 400]) if ctx.tier == "thorough" else 90, d)
         S.counters["wl:at-scale-histories"] += 1
-    c, how = gen.build(api, start, d, rng)
+        with probe.monitor_mode():  # (registering hundreds of records one by one under the C05 hook would cost O(n^3))
+            c, how = api.Converter([gen.mk_record(api, r) for r in start], delimiter=d), "ctor"
+    else:
+        c, how = gen.build(api, start, d, rng)
     outcomes = []
     steps = rng.randint(1, 8)
     hist = []
